@@ -404,19 +404,25 @@ class ReadBucketProxy:
         return self._read(0, 0x44)
 
     def _parse_offsets(self, data):
-        precondition(len(data) >= 0x4)
+        # The server may hand us fewer bytes than we asked for (a truncated
+        # or otherwise damaged share). That is a problem with the share, not
+        # a programming error: report it as such.
+        if len(data) < 0x4:
+            raise LayoutInvalid("share is too short (%d bytes) to hold a version number" % len(data))
         self._offsets = {}
         (version,) = struct.unpack(">L", data[0:4])
         if version != 1 and version != 2:
             raise ShareVersionIncompatible(version)
 
         if version == 1:
-            precondition(len(data) >= 0x24)
+            if len(data) < 0x24:
+                raise LayoutInvalid("share is too short (%d bytes) to hold its offset table" % len(data))
             x = 0x0c
             fieldsize = 0x4
             fieldstruct = ">L"
         else:
-            precondition(len(data) >= 0x44)
+            if len(data) < 0x44:
+                raise LayoutInvalid("share is too short (%d bytes) to hold its offset table" % len(data))
             x = 0x14
             fieldsize = 0x8
             fieldstruct = ">Q"
